@@ -26,7 +26,7 @@ RULE = ("typed field assignments for each level 0..3: all 14 methods, 19 OS type
 
 
 def budget(tier):
-    return 3000 if tier == "quick" else 60000
+    return 3000 if tier == "quick" else 300000
 
 
 def gen_cases(ctx, n):
